@@ -26,11 +26,11 @@ use std::ptr;
 #[cfg(not(sighook_verif))]
 use std::sync::atomic::{AtomicBool, Ordering};
 #[cfg(not(sighook_verif))]
-use std::sync::{Arc, Mutex};
+use std::sync::{Arc, Mutex, PoisonError};
 #[cfg(sighook_verif)]
 use libc::vshim::atomic::{AtomicBool, Ordering};
 #[cfg(sighook_verif)]
-use libc::vshim::Mutex;
+use libc::vshim::{Mutex, PoisonError};
 #[cfg(sighook_verif)]
 use std::sync::Arc;
 
@@ -80,7 +80,13 @@ impl DeliveryState {
 
 impl Drop for DeliveryState {
     fn drop(&mut self) {
-        let lock = self.registered_signal_ids.lock().unwrap();
+        // A panic inside `add_signal` (forbidden or out of range signal) poisons the mutex, but
+        // never leaves the table half-updated. Panicking here would abort the process if we are
+        // being dropped during unwinding and would leak the registrations.
+        let lock = self
+            .registered_signal_ids
+            .lock()
+            .unwrap_or_else(PoisonError::into_inner);
         for id in lock.iter().filter_map(|s| *s) {
             crate::low_level::unregister(id);
         }
@@ -207,7 +213,13 @@ impl Handle {
     /// * If the relevant [`Exfiltrator`] does not support this particular signal. The default
     ///   [`SignalOnly`] one supports all signals.
     pub fn add_signal(&self, signal: c_int) -> Result<(), Error> {
-        let mut lock = self.delivery_state.registered_signal_ids.lock().unwrap();
+        // The documented panics below happen with the lock held; the table is only updated
+        // after a successful registration, so a poisoned lock still protects consistent data.
+        let mut lock = self
+            .delivery_state
+            .registered_signal_ids
+            .lock()
+            .unwrap_or_else(PoisonError::into_inner);
         // Already registered, ignoring
         if lock[signal as usize].is_some() {
             return Ok(());
